@@ -457,6 +457,7 @@ where
         }
     });
     let _ = take_last_panic();
+    crate::mpsc::reset_ids();
     let out: Arc<Mutex<Option<T>>> = Arc::new(Mutex::new(None));
     let out2 = out.clone();
     IN_SIM.with(|c| c.set(true));
